@@ -299,6 +299,10 @@ func (o *c01Oracle) AfterRun(w *World, op *Op, res *RunResult) {
 		return
 	}
 	if !res.OK() {
+		if why := w.ModelInconsistent(); why != "" {
+			w.Harness = "generator produced a forest that is none: " + why
+			return
+		}
 		w.Fail("run-failed-on-runnable-world:"+res.FailClass(), "stage=%s err=%s", res.Stage, res.Err)
 		return
 	}
